@@ -47,6 +47,7 @@ var newCapChoices = []int{0, 1, 7, 64, 4096, 1 << 16}
 
 func c13Task(r *core.Rng, tier string) core.TaskSpec {
 	o := core.HistOpts{Shapes: c13Shapes, PageMin: 1, PageMax: 4, MinBatches: 1, MaxBatches: 3, MaxOps: 10, Profile: core.Benign}
+	o.HugePct = 1
 	if tier == "thorough" {
 		o.MaxOps = 16
 		o.LargePct = 1
